@@ -471,11 +471,10 @@ class Engine:
         for s, vs in self.ev_seq([e.left] + list(e.comparators), st):
             if isinstance(vs, Raise): out.append((s, vs)); continue
             links = []
-            n0 = len(s.conds)
             for i, op in enumerate(e.ops):
                 c = self.cmp(s, op, vs[i], vs[i + 1], e.lineno)
                 links.append(c); s.conds.append(c)            # later links are only evaluated if the earlier ones hold
-            del s.conds[n0:]
+            s.conds[:] = [h for h in s.conds if not any(h is g for g in links)]
             out.append((s, V(And(*links) if len(links) > 1 else links[0], BOOL)))
         return out
 
@@ -522,12 +521,14 @@ class Engine:
             if h is not None:
                 r = h(self, e, st)
                 if r is not NotImplemented: return r
-        vals = []; s = st; n0 = len(st.conds)
+        vals = []; s = st; guards = []
         for x in e.values:
             s, v = self.ev1(x, s)
             t = self.truth(s, v); vals.append(t)
-            s.conds.append(t if is_and else Not(t))
-        del s.conds[n0:]
+            g = t if is_and else Not(t)
+            guards.append(g); s.conds.append(g)
+        # drop only the short-circuit guards; assumptions made by contracts evaluated inside the operands stay
+        s.conds[:] = [h for h in s.conds if not any(h is g for g in guards)]
         return [(s, V(And(*vals) if is_and else Or(*vals), BOOL))]
 
     def ev_IfExp(self, e, st):
